@@ -3,12 +3,15 @@ import LopdfModel.Model.Queries
   C13 — models of `get_named_destinations` (src/destinations.rs), `get_outline`,
   `build_outline_result`, `get_outlines` (src/outlines.rs) and `get_toc` (src/toc.rs).
 
-  `get_named_destinations` recurses over `Kids` and `get_outlines` recurses over `First` without
-  any guard in the code (no visited set, no depth limit): these two recursions carry EXPLICIT
-  FUEL; `none` = fuel exhausted, and `Thm/C13.lean` shows that cyclic documents exhaust every fuel.
-  The `loop` of `get_outlines` over `Next` is guarded by the `seen_next` set since 79a3229: it is
-  defined WITHOUT fuel, by well-founded recursion on (objects not yet in `seen_next`, size of an
-  inline `Next` dictionary).
+  No fuel anywhere: every walker is defined by well-founded recursion on the guard the code has.
+  * `get_named_destinations` (recursion over `Kids`): the `seen` set of name-tree nodes already
+    entered (ba860eb). The recursion is written as an explicit stack of frames
+    (kids still to visit, node whose `Names` are read afterwards); measure: (objects not yet in
+    `seen`, pending frames and kids).
+  * `get_outlines` (loop over `Next`, recursion over `First`): one `seen` set of outline items
+    entered through a `First` or `Next` reference (bca5e67), threaded through the recursion
+    and returned with the result; measure: (objects not yet in `seen`, size of an inline
+    dictionary). Inline `First` / `Next` dictionaries are strict sub-terms of the current node.
 -/
 namespace Lopdf.Q13
 open Gen
@@ -68,28 +71,58 @@ def namesPart (os : Objects) (tree : Dict) (named : Named) : Outcome Named :=
     | none => E
     | some l => namesLoop os l named
 
-/-- `Document::get_named_destinations` with explicit fuel (`none` = out of fuel):
-the recursion over `Kids` is unguarded in the code. -/
-def namedDests (os : Objects) : Nat → Dict → Named → Option (Outcome Named)
-  | 0, _, _ => none
-  | fuel + 1, tree, named =>
-    let afterKids : Option (Outcome Named) :=
-      match tree.get KIDS with
-      | none => some (.ok named)
-      | some kids =>
-        match kids.asArr with
-        | none => some E
-        | some ks =>
-          ks.foldl (fun (acc : Option (Outcome Named)) (kid : Obj) =>
-            match acc with
-            | some (.ok nm) =>
-              match kid.asRef.bind (getDictionary os) with
-              | some kd => namedDests os fuel kd nm
-              | none => some (.ok nm)
-            | other => other) (some (.ok named))
-    match afterKids with
-    | some (.ok named1) => some (namesPart os tree named1)
-    | other => other
+/-- a frame of the `Kids` recursion: the kids still to visit and the node whose `Names` are read
+after them -/
+abbrev NdFrame := List Obj × Dict
+
+def ndWeight (fs : List NdFrame) : Nat := (fs.map (fun f => f.1.length + 1)).sum
+
+/-- entering a name-tree node: `if let Ok(kids) = tree.get(b"Kids") { for kid in kids.as_array()? … }`;
+`none` = `Err` -/
+def ndEnter (tree : Dict) : Option NdFrame :=
+  match tree.get KIDS with
+  | none => some ([], tree)
+  | some k =>
+    match k.asArr with
+    | some ks => some (ks, tree)
+    | none => none
+
+/-- the recursion of `get_named_destinations_guarded` as a stack machine. A kid is entered only if
+it is a reference to a dictionary; entering it twice is `Err(ReferenceCycle)`. No fuel: either the
+`seen` set grows by an existing object or the pending work shrinks. -/
+def ndRun (os : Objects) (fs : List NdFrame) (named : Named) (seen : List ObjId) : Outcome Named :=
+  match fs with
+  | [] => .ok named
+  | ([], tree) :: rest =>
+    match namesPart os tree named with
+    | .ok named' => ndRun os rest named' seen
+    | .err e => .err e
+    | .panic s => .panic s
+  | (kid :: kids, tree) :: rest =>
+    match kid.asRef with
+    | none => ndRun os ((kids, tree) :: rest) named seen
+    | some id =>
+      match hd : getDictionary os id with
+      | none => ndRun os ((kids, tree) :: rest) named seen
+      | some kd =>
+        if hs : id ∈ seen then E
+        else
+          match ndEnter kd with
+          | none => E
+          | some fr => ndRun os (fr :: (kids, tree) :: rest) named (id :: seen)
+termination_by (unseen os seen, ndWeight fs)
+decreasing_by
+  · apply Prod.Lex.right; simp [ndWeight]
+  · apply Prod.Lex.right; simp [ndWeight]
+  · apply Prod.Lex.right; simp [ndWeight]
+  · obtain ⟨o, hm⟩ := getDictionary_mem hd
+    exact Prod.Lex.left _ _ (unseen_lt os seen id o hm hs)
+
+/-- `Document::get_named_destinations` -/
+def namedDests (os : Objects) (tree : Dict) (named : Named) : Outcome Named :=
+  match ndEnter tree with
+  | none => E
+  | some fr => ndRun os [fr] named []
 
 /-! ### outlines -/
 
@@ -162,24 +195,12 @@ def outlineNode (os : Objects) (first : Obj) : Option Dict :=
   | .dict d => some d
   | o => (o.asRef.bind (getObject os)).bind Obj.asDict
 
-abbrev WalkRes := Option (Outcome (List Outline × Named))
-
 /-- `if let Ok(Some(outline)) = self.get_outline(node, named) { outlines.push(outline) }` -/
 def pushOutline (r : Outcome (Option Outline × Named)) (acc : List Outline) (named : Named) : List Outline × Named :=
   match r with
   | .ok (some o, nm) => (acc ++ [o], nm)
   | .ok (none, nm) => (acc, nm)
   | _ => (acc, named)
-
-/-- `if let Ok(first) = node.get(b"First") { … self.get_outlines(Some(first.clone()), Some(vec![]), named)? … }`;
-`sub` is the recursive call on the `First` object -/
-def firstStep (sub : Obj → Named → WalkRes) (node : Dict) (st : List Outline × Named) : WalkRes :=
-  match node.get K_First with
-  | none => some (.ok st)
-  | some first =>
-    match sub first st.2 with
-    | some (.ok (subs, nm)) => some (.ok (if subs.isEmpty then st.1 else st.1 ++ [.sub subs], nm))
-    | other => other
 
 theorem Dict.sizeOf_get_lt {d : Dict} {k : Bytes} {v : Obj} (h : d.get k = some v) : sizeOf v < sizeOf d := by
   induction d with
@@ -191,44 +212,78 @@ theorem Dict.sizeOf_get_lt {d : Dict} {k : Bytes} {v : Obj} (h : d.get k = some 
     · cases h; simp; omega
     · have := ih h; simp; omega
 
-/-- the `loop` of `get_outlines`: one iteration per outline item of a level, following `Next`.
-`seen` is the `seen_next` set of the code; no fuel: a reference either was seen (→ `Err`), is
-dangling / not a dictionary (→ `break`), or enlarges `seen` by an existing object; an inline
-`Next` dictionary is a strict sub-term of the current node. -/
-def nextLoop (os : Objects) (sub : Obj → Named → WalkRes) (node : Dict) (acc : List Outline)
-    (named : Named) (seen : List ObjId) : WalkRes :=
+/-- result of a walk and the `seen` set afterwards -/
+abbrev WalkOut := Outcome (List Outline × Named) × List ObjId
+
+/-- a walk started with `seen` returns a set with no more unseen objects -/
+abbrev WalkSub (os : Objects) (seen : List ObjId) := { r : WalkOut // unseen os r.2 ≤ unseen os seen }
+
+/-- wrap the result of a sub-walk over `First` into the parent's list -/
+def wrapSub (st : List Outline × Named) (r : WalkOut) : WalkOut :=
+  match r.1 with
+  | .ok (subs, nm) => (.ok (if subs.isEmpty then st.1 else st.1 ++ [.sub subs], nm), r.2)
+  | .err e => (.err e, r.2)
+  | .panic s => (.panic s, r.2)
+
+theorem wrapSub_snd (st : List Outline × Named) (r : WalkOut) : (wrapSub st r).2 = r.2 := by
+  unfold wrapSub; split <;> rfl
+
+/-- `get_outlines_guarded` after the node has been resolved: per item `get_outline`, the recursion
+over `First` (inline dictionary, or reference entered at most once), then `Next` (reference
+entered at most once, or inline dictionary). `seen` is threaded through and returned. -/
+def walkG (os : Objects) (node : Dict) (acc : List Outline) (named : Named) (seen : List ObjId) :
+    WalkSub os seen :=
   match getOutline os node named with
-  | .panic s => some (.panic s)
+  | .panic s => ⟨(.panic s, seen), Nat.le_refl _⟩
   | r =>
-    match firstStep sub node (pushOutline r acc named) with
-    | some (.ok (acc2, named2)) =>
-      match hn : node.get K_Next with
+    let st := pushOutline r acc named
+    let fr : WalkSub os seen :=
+      match hf : node.get K_First with
+      | none => ⟨(.ok st, seen), Nat.le_refl _⟩
+      | some (.dict d) =>
+        let sub := walkG os d [] st.2 seen
+        ⟨wrapSub st sub.val, by rw [wrapSub_snd]; exact sub.property⟩
       | some (.ref a b) =>
-        if hs : (a, b) ∈ seen then some E
+        if hs : (a, b) ∈ seen then ⟨(E, seen), Nat.le_refl _⟩
         else
           match hd : getDictionary os (a, b) with
-          | some next => nextLoop os sub next acc2 named2 ((a, b) :: seen)
-          | none => some (.ok (acc2, named2))
-      | some (.dict d) => nextLoop os sub d acc2 named2 seen
-      | _ => some (.ok (acc2, named2))
-    | other => other
+          | none => ⟨(E, seen), Nat.le_refl _⟩
+          | some d =>
+            let sub := walkG os d [] st.2 ((a, b) :: seen)
+            ⟨wrapSub st sub.val, by rw [wrapSub_snd]; exact Nat.le_trans sub.property (unseen_le seen (a, b) os)⟩
+      | some _ => ⟨(E, seen), Nat.le_refl _⟩
+    match fr.val.1 with
+    | .ok (acc2, named2) =>
+      match hn : node.get K_Next with
+      | some (.ref a b) =>
+        if hs : (a, b) ∈ fr.val.2 then ⟨(E, fr.val.2), fr.property⟩
+        else
+          match hd : getDictionary os (a, b) with
+          | some next =>
+            let r2 := walkG os next acc2 named2 ((a, b) :: fr.val.2)
+            ⟨r2.val, Nat.le_trans r2.property (Nat.le_trans (unseen_le fr.val.2 (a, b) os) fr.property)⟩
+          | none => ⟨(.ok (acc2, named2), (a, b) :: fr.val.2), Nat.le_trans (unseen_le fr.val.2 (a, b) os) fr.property⟩
+      | some (.dict d) =>
+        let r2 := walkG os d acc2 named2 fr.val.2
+        ⟨r2.val, Nat.le_trans r2.property fr.property⟩
+      | _ => ⟨(.ok (acc2, named2), fr.val.2), fr.property⟩
+    | .err e => ⟨(.err e, fr.val.2), fr.property⟩
+    | .panic s => ⟨(.panic s, fr.val.2), fr.property⟩
 termination_by (unseen os seen, sizeOf node)
 decreasing_by
+  · apply Prod.Lex.right
+    have := Dict.sizeOf_get_lt hf
+    simp at this; omega
   · obtain ⟨o, hm⟩ := getDictionary_mem hd
     exact Prod.Lex.left _ _ (unseen_lt os seen (a, b) o hm hs)
-  · apply Prod.Lex.right
-    have := Dict.sizeOf_get_lt hn
-    simp at this; omega
-
-/-- `get_outlines` after the node has been resolved. The recursion over `First` is UNGUARDED in
-the code: `fuel` bounds its nesting depth only (the `Next` loop needs none). -/
-def walkOutlines (os : Objects) : Nat → Dict → List Outline → Named → WalkRes
-  | 0, _, _, _ => none
-  | fuel + 1, node, acc, named =>
-    nextLoop os (fun first nm =>
-      match outlineNode os first with
-      | none => some E
-      | some sub => walkOutlines os fuel sub [] nm) node acc named []
+  · obtain ⟨o, hm⟩ := getDictionary_mem hd
+    exact Prod.Lex.left _ _ (Nat.lt_of_lt_of_le (unseen_lt os fr.val.2 (a, b) o hm hs) fr.property)
+  · have hsz : sizeOf d < sizeOf node := by
+      have := Dict.sizeOf_get_lt hn
+      simp at this; omega
+    rcases Nat.lt_or_eq_of_le fr.property with h | h
+    · exact Prod.Lex.left _ _ h
+    · rw [h]; exact Prod.Lex.right _ hsz
 
 /-- the destination name tree `get_outlines` loads first -/
 def destTree (os : Objects) (cat : Dict) : Option Dict :=
@@ -237,24 +292,23 @@ def destTree (os : Objects) (cat : Dict) : Option Dict :=
   | none => (getDictInDict os cat K_Names).bind fun n => getDictInDict os n K_Dests
 
 /-- `Document::get_outlines(None, None, &mut named)` -/
-def getOutlines (trailer : Dict) (os : Objects) (fuel : Nat) : Option (Outcome (List Outline × Named)) :=
+def getOutlines (trailer : Dict) (os : Objects) : Outcome (List Outline × Named) :=
   match catalog trailer os with
-  | none => some E
+  | none => E
   | some cat =>
     match getDictInDict os cat K_Outlines with
-    | none => some E
+    | none => E
     | some outl =>
       let node := match getDictInDict os outl K_First with
         | some f => f
         | none => outl
-      let named : Option (Outcome Named) := match destTree os cat with
-        | none => some (.ok [])
-        | some t => namedDests os fuel t []
+      let named : Outcome Named := match destTree os cat with
+        | none => .ok []
+        | some t => namedDests os t []
       match named with
-      | none => none
-      | some (.err e) => some (.err e)
-      | some (.panic s) => some (.panic s)
-      | some (.ok nm) => walkOutlines os fuel node [] nm
+      | .err e => .err e
+      | .panic s => .panic s
+      | .ok nm => (walkG os node [] nm []).val.1
 
 /-! ### table of contents (src/toc.rs) -/
 
@@ -295,23 +349,21 @@ def tocTitleBad (t : Bytes) : Bool :=
   | _ => false
 
 /-- `Document::get_toc`: the (level, page number) entries and the number of title errors -/
-def getToc (memMax : Nat) (trailer : Dict) (os : Objects) (fuel : Nat) :
-    Option (Outcome (List (Nat × Nat) × Nat)) :=
-  match getOutlines trailer os fuel with
-  | none => none
-  | some (.err e) => some (.err e)
-  | some (.panic s) => some (.panic s)
-  | some (.ok (outlines, _)) =>
+def getToc (memMax : Nat) (trailer : Dict) (os : Objects) : Outcome (List (Nat × Nat) × Nat) :=
+  match getOutlines trailer os with
+  | .err e => .err e
+  | .panic s => .panic s
+  | .ok (outlines, _) =>
     match tocIdsList 1 outlines [] with
-    | none => some E
+    | none => E
     | some ids =>
       match getPages memMax trailer os with
-      | .err e => some (.err e)
-      | .panic s => some (.panic s)
+      | .err e => .err e
+      | .panic s => .panic s
       | .ok pages =>
-        some (.ok (ids.foldl (fun (acc : List (Nat × Nat) × Nat) (p : Bytes × (ObjId × Nat)) =>
+        .ok (ids.foldl (fun (acc : List (Nat × Nat) × Nat) (p : Bytes × (ObjId × Nat)) =>
           match pageNumOf pages p.2.1 with
           | none => acc
-          | some n => if tocTitleBad p.1 then (acc.1, acc.2 + 1) else (acc.1 ++ [(p.2.2, n)], acc.2)) ([], 0)))
+          | some n => if tocTitleBad p.1 then (acc.1, acc.2 + 1) else (acc.1 ++ [(p.2.2, n)], acc.2)) ([], 0))
 
 end Lopdf.Q13
